@@ -11,6 +11,7 @@ import (
 	"pgregory.net/rapid"
 
 	"verifharness/lab"
+	"verifharness/wire"
 )
 
 type c10Req struct {
@@ -64,6 +65,7 @@ func c10Exec(c c10Case, st *lab.Stats) *lab.Fail {
 	_ = mux.Add(handler("route"))
 	_ = mux.Delete(handler("route"))
 	_ = mux.ExtendedOperation(handler("route"), "1.3.6.1.4.1.4203.1.11.3")
+	_ = mux.ExtendedOperation(handler("starttls-route"), gldap.ExtendedOperationStartTLS)
 	if c.UnbindRoute {
 		_ = mux.Unbind(handler("unbind"))
 	}
@@ -96,6 +98,10 @@ func c10Exec(c c10Case, st *lab.Stats) *lab.Fail {
 	for i, q := range c.Post {
 		id := unbindID + 1 + int64(i)
 		postIDs[id] = true
+		if q.Op == "starttls" {
+			buf = append(buf, ReqSpec{Req: wire.Req{Kind: "extended", MsgID: id, ExtName: []byte(wire.OIDStartTLS)}}.Bytes()...)
+			continue
+		}
 		buf = append(buf, simpleReq(q.Op, id).Bytes()...)
 	}
 	nblocked := len(blockedSet)
@@ -198,7 +204,7 @@ func TestC10(t *testing.T) {
 			}
 			npo := rapid.IntRange(0, 8).Draw(t, "npost")
 			for i := 0; i < npo; i++ {
-				c.Post = append(c.Post, c10Req{Op: rapid.SampledFrom(append([]string{"unbind"}, ops...)).Draw(t, "postop")})
+				c.Post = append(c.Post, c10Req{Op: rapid.SampledFrom(append([]string{"unbind", "starttls"}, ops...)).Draw(t, "postop")})
 			}
 			if rapid.IntRange(0, 2).Draw(t, "split") == 0 {
 				c.Split = rapid.SliceOfN(rapid.IntRange(1, 999), 1, 4).Draw(t, "cuts")
